@@ -255,7 +255,8 @@ func checkPhrase(c *codecCase) (string, string) {
 // ---- malformed phrases must be refused ----
 
 var malKinds = []string{"unknown-typo", "unknown-prefix", "unknown-suffix", "upper-case", "mixed-case", "double-space", "leading-space", "trailing-space",
-	"tab-separator", "newline-separator", "nbsp-separator", "word-removed", "word-added", "30-words", "36-words", "wrong-decoder", "empty", "only-spaces", "comma-separated", "unicode-lookalike", "trailing-newline"}
+	"tab-separator", "newline-separator", "nbsp-separator", "word-removed", "word-added", "30-words", "36-words", "wrong-decoder", "empty", "only-spaces", "comma-separated", "unicode-lookalike", "trailing-newline",
+	"word-removed+trailing-space", "word-removed+leading-space", "word-removed+double-space", "two-words-removed+two-spaces", "word-added+trailing-space", "suffix-on-six-letter-word", "word+NUL"}
 
 func inList(w string) bool {
 	for _, x := range words {
@@ -345,6 +346,33 @@ func TestMalformed(t *testing.T) {
 			c.Phrase = strings.ReplaceAll(join(), " ", ",")
 		case "word-removed":
 			ws = append(ws[:pos], ws[pos+1:]...)
+			c.Phrase = join()
+		case "word-removed+trailing-space":
+			ws = append(ws[:pos], ws[pos+1:]...)
+			c.Phrase = join() + " "
+		case "word-removed+leading-space":
+			ws = append(ws[:pos], ws[pos+1:]...)
+			c.Phrase = " " + join()
+		case "word-removed+double-space":
+			ws = append(ws[:pos], ws[pos+1:]...)
+			c.Phrase = strings.Replace(join(), " ", "  ", 1)
+		case "two-words-removed+two-spaces":
+			ws = ws[:len(ws)-2]
+			c.Phrase = join() + "  "
+		case "word-added+trailing-space":
+			ws = append(ws, words[rapid.IntRange(0, 4095).Draw(rt, "extra")])
+			c.Phrase = join() + " "
+		case "suffix-on-six-letter-word":
+			for tries := 0; len(ws[pos]) != 6 && tries < 200; tries++ {
+				ws[pos] = words[rapid.IntRange(0, 4095).Draw(rt, "six")]
+			}
+			ws[pos] += rapid.SampledFrom([]string{"z", "s", "ed", "x1"}).Draw(rt, "sfx")
+			if inList(ws[pos]) {
+				ws[pos] += "q"
+			}
+			c.Phrase = join()
+		case "word+NUL":
+			ws[pos] += "\x00"
 			c.Phrase = join()
 		case "word-added":
 			ws = append(ws[:pos], append([]string{words[rapid.IntRange(0, 4095).Draw(rt, "extra")]}, ws[pos:]...)...)
